@@ -148,6 +148,12 @@ def requestStatus (req : Status) : M Unit := do
     else if req != cur && cur == upd then throw .invalidWorkflowStatusTransition
     else pure ()
 
+/-- `_fail_workflow_on_error()`: a runtime error is recorded wherever it occurs, but it cannot
+    fail a workflow that is already canceled (the request would be rejected) -/
+def failOnError : M Unit := do
+  let c ← get
+  if c.st.status == .canceled then pure () else requestStatus .failed
+
 /-! ## initialisation (`workflow_state` property) -/
 
 def renderInput (spec : WfSpec) (runtime : Val.Dict) (inCtx : Val.Dict) : Val.Dict × Nat :=
@@ -180,7 +186,7 @@ def init (spec : WfSpec) (parentCtx inputs : Val.Dict) : Cond :=
   let (_, vars, e2) := renderSeq E spec.vars (fun r => { vars := r }) ctx
   let ctx := Val.mergeDicts ctx vars
   let c := if e1 + e2 > 0 then
-      ((do logError "ExpressionEvaluationException"; requestStatus .failed : M Unit) c).2
+      ((do logError "ExpressionEvaluationException"; failOnError : M Unit) c).2
     else c
   if c.st.status.isAbended then c
   else
@@ -214,53 +220,68 @@ def liftOpt {α} (o : Option α) (e : Err) : M α :=
   | none => throw e
 
 /-- `evaluate(getattr(self, "input", {}), ctx)`: an absent input renders as `None` -/
-def evalInputs (inp : List (String × Expr)) (ec : EvalCtx) : Option Val :=
+def evalInputsWith (ev : Expr → EvalCtx → Option Val) (inp : List (String × Expr)) (ec : EvalCtx) : Option Val :=
   if inp.isEmpty then some .null
-  else (inp.foldlM (fun acc p => (E.eval p.2 ec).map fun v => Val.dset acc p.1 v) []).map Val.dict
+  else (inp.foldlM (fun acc p => (ev p.2 ec).map fun v => Val.dset acc p.1 v) []).map Val.dict
 
-/-- `get_task(task_id, route)` -/
-def getTask (k : TaskKey) : M Offer := do
-  let c ← get
-  let idxs : List Nat := match c.st.getStaged? k with
-    | some x => x.ctxsIn
-    | none => match c.st.getRec? k with
-      | some r => r.ctxsIn
-      | none => [0]   -- ValueError branch: falls back to the workflow initial context
-  let vars ← liftExcept (c.st.taskContext idxs)
-  let ec : EvalCtx := { vars := vars, curTask := some k, st := some c.st }
-  let ts ← liftOpt (c.spec.getTask? k.1) .keyError
+def evalInputs (inp : List (String × Expr)) (ec : EvalCtx) : Option Val := evalInputsWith E.eval inp ec
+
+def optErr {α} (o : Option α) (e : Err) : Except Err α :=
+  match o with
+  | some a => .ok a
+  | none => .error e
+
+/-- the rendering of a task for an offer, as a function of the way expressions are evaluated
+    (`ev`), the task's specification and its context variables -/
+def renderTask (ev : Expr → EvalCtx → Option Val) (ts : TaskSpec) (vars : Val.Dict) (k : TaskKey) : Except Err Offer := do
+  let ec : EvalCtx := { vars := vars, curTask := some k }
   let actions ← (match ts.withItems with
     | none => do
-      let inp ← liftOpt (evalInputs E ts.input ec) .expr
+      let inp ← optErr (evalInputsWith ev ts.input ec) .expr
       pure [({ action := ts.action, input := inp, itemId := none } : ActionOffer)]
     | some its => do
-      let itemsV ← liftOpt (E.eval its.items ec) .expr
+      let itemsV ← optErr (ev its.items ec) .expr
       match itemsV with
       | .list xs =>
-        mapM' (xs.zipIdx) fun (x, i) => do
+        (xs.zipIdx).mapM fun (x, i) => do
           let item : Val := match its.key with
             | some key => .dict [(key, x)]
             | none => x
-          let inp ← liftOpt (evalInputs E ts.input { ec with curItem := some item }) .expr
+          let inp ← optErr (evalInputsWith ev ts.input { ec with curItem := some item }) .expr
           pure ({ action := ts.action, input := inp, itemId := some i } : ActionOffer)
-      | _ => throw .typeError : M (List ActionOffer))
+      | _ => .error .typeError : Except Err (List ActionOffer))
   let delay ← (match ts.delay with
     | none => pure none
     | some (.lit (.int 0)) => pure none
     | some (.lit (.int n)) => pure (some (.int n))
     | some e => do
-      let v ← liftOpt (E.eval e ec) .expr
+      let v ← optErr (ev e ec) .expr
       match v with
       | .int n => pure (some (.int n))
-      | _ => throw .typeError : M (Option Val))
+      | _ => .error .typeError : Except Err (Option Val))
   match ts.withItems with
   | none => pure { id := k.1, route := k.2, actions := actions, delay := delay, ctx := vars }
   | some its => do
     let conc ← (match its.concurrency with
       | none => pure Val.null
-      | some e => liftOpt (E.eval e ec) .expr : M Val)
+      | some e => optErr (ev e ec) .expr : Except Err Val)
     pure { id := k.1, route := k.2, actions := actions, delay := delay,
            itemsCount := some actions.length, concurrency := some conc, ctx := vars }
+
+/-- the context snapshots a task is rendered with: those of its staged entry, else of its record -/
+def taskCtxIdxs (st : WState) (k : TaskKey) : List Nat :=
+  match st.getStaged? k with
+  | some x => x.ctxsIn
+  | none => match st.getRec? k with
+    | some r => r.ctxsIn
+    | none => [0]   -- ValueError branch: falls back to the workflow initial context
+
+/-- `get_task(task_id, route)` -/
+def getTask (k : TaskKey) : M Offer := do
+  let c ← get
+  let vars ← liftExcept (c.st.taskContext (taskCtxIdxs c.st k))
+  let ts ← liftOpt (c.spec.getTask? k.1) .keyError
+  liftExcept (renderTask (fun e ec => E.eval e { ec with st := some c.st }) ts vars k)
 
 /-- number of items whose action is in an active status -/
 def activeCount (items : List Status) : Nat := (items.filter Status.isActive).length
@@ -276,6 +297,23 @@ def selectItems {α} (actions : List α) (items : List Status) (conc : Option In
   | some cc => (notRun actions items).take (((if cc ≤ 0 then 1 else cc) - (activeCount items : Int)).toNat)
   | none => notRun actions items
 
+/-- the item statuses `_evaluate_task_actions` works with: those recorded in the staged entry, or
+    `n` fresh ones when nothing (or an empty list) is recorded yet -/
+def normItems (old : Option (List Status)) (n : Nat) : List Status :=
+  match old with
+  | some its => if its.isEmpty then List.replicate n .unset else its
+  | none => List.replicate n .unset
+
+/-- the offer cut down to the with-items window, given the item statuses -/
+def windowOf (o : Offer) (items : List Status) : Except Err Offer :=
+  match o.concurrency with
+  | some (.int cc) =>
+    .ok { o with actions := selectItems o.actions items (some cc),
+                 concurrency := some (.int (if cc ≤ 0 then 1 else cc)) }
+  | some .null => .ok { o with actions := selectItems o.actions items none }
+  | none => .ok { o with actions := selectItems o.actions items none }
+  | some _ => .error .typeError
+
 /-- `_evaluate_task_actions(task)` -/
 def evaluateTaskActions (o : Offer) : M Offer := do
   match o.itemsCount with
@@ -286,17 +324,9 @@ def evaluateTaskActions (o : Offer) : M Offer := do
     match c.st.getStaged? k with
     | none => throw .typeError
     | some sx => do
-      let items : List Status := match sx.items with
-        | some its => if its.isEmpty then List.replicate n .unset else its
-        | none => List.replicate n .unset
+      let items := normItems sx.items n
       modifySt fun st => st.updateStaged k fun x => { x with items := some items }
-      match o.concurrency with
-      | some (.int cc) =>
-        pure { o with actions := selectItems o.actions items (some cc),
-                      concurrency := some (.int (if cc ≤ 0 then 1 else cc)) }
-      | some .null => pure { o with actions := selectItems o.actions items none }
-      | none => pure { o with actions := selectItems o.actions items none }
-      | some _ => throw .typeError
+      liftExcept (windowOf o items)
 
 def insOffer (x : Offer) : List Offer → List Offer
   | [] => [x]
@@ -343,7 +373,7 @@ def nextFrom (todo : List Staged) : M (List Offer) := do
     let (o, f) ← nextTaskFor E sx
     pure (match o with | some o => acc.1 ++ [o] | none => acc.1, acc.2 || f)
   if failed then do
-    requestStatus .failed
+    failOnError
     pure []
   else pure (sortOffers offers)
 
@@ -410,7 +440,7 @@ def addTaskState (k : TaskKey) (ctxsIn : List Nat) (prev : List (TransId × Nat)
       | none => pure ()
       | some e => do
         logError e.className (some k.1) (some k.2)
-        requestStatus .failed : M Unit)
+        failOnError : M Unit)
     let c' ← get
     modifySt fun st => (({ st with sequence := st.sequence ++ [(newRecord E c k ctxsIn prev).1] } : WState).setTask k
       c'.st.sequence.length)
@@ -520,7 +550,7 @@ def fireTransition (k : TaskKey) (idx : Nat) (ec : EvalCtx) (acc : TransAcc) (e 
   let (_, newCtx, nerr) := renderSeq E pubs (fun r => { ec with vars := r }) ec.vars
   if nerr > 0 then do
     logError "ExpressionEvaluationException" (some k.1) (some k.2) (some tid)
-    requestStatus .failed
+    failOnError
     pure acc
   else do
     let r ← liftOpt c.st.sequence[idx]? .indexError
@@ -541,7 +571,7 @@ def processTransition (k : TaskKey) (idx : Nat) (ec : EvalCtx) (acc : TransAcc) 
   match crit with
   | none => do
     logError "ExpressionEvaluationException" (some k.1) (some k.2) (some tid)
-    requestStatus .failed
+    failOnError
     pure acc
   | some b => do
     modifySt fun st => st.updateRec idx fun r => { r with next := setAssoc r.next tid b }
@@ -617,8 +647,10 @@ def restageRetry (k : TaskKey) (idx : Nat) (oldStatus : Status) : M Unit := do
         prev := r.prev, ready := true, retry := some rs }
   else pure ()
 
-/-- phase 4 (completed records): staging clean-up, then the retry decision; `true` = retry -/
-def completedRetryDecision (k : TaskKey) (idx : Nat) (ts : TaskSpec) (newStatus : Status) (ev : Event) :
+/-- phase 4 (completed records): staging clean-up, then the retry decision; `true` = retry.
+    A report that leaves the status of an already completed record as it was (a late or duplicate
+    report) is not a reason to retry. -/
+def completedRetryDecision (k : TaskKey) (idx : Nat) (ts : TaskSpec) (oldStatus newStatus : Status) (ev : Event) :
     M Bool := do
   (if !(ts.withItems.isSome && newStatus.isAbended) then modifySt fun st => st.removeStaged k
    else do
@@ -629,12 +661,12 @@ def completedRetryDecision (k : TaskKey) (idx : Nat) (ts : TaskSpec) (newStatus 
   let c ← get
   let r ← liftOpt c.st.sequence[idx]? .indexError
   let dec : Except Err Bool :=
-    if c.st.status.isActive then evaluateTaskRetry E r ec else .ok false
+    if newStatus != oldStatus && c.st.status.isActive then evaluateTaskRetry E r ec else .ok false
   match dec with
   | .ok b => pure b
   | .error e => do
     logError e.className (some k.1) (some k.2)
-    requestStatus .failed
+    failOnError
     pure false
 
 /-- phase 5: evaluate the outbound transitions of a freshly completed record -/
@@ -709,7 +741,7 @@ def updateRest (recur : TaskKey → Event → M Unit) (k : TaskKey) (ev : Event)
 
 /-- second half: the retry decision (re-entering `update_task_state` with the retry event), or the rest -/
 def updateTail (recur : TaskKey → Event → M Unit) (k : TaskKey) (ev : Event) (h : Stepped) : M Unit := do
-  let retry ← (if h.newStatus.isCompleted then completedRetryDecision E k h.idx h.ts h.newStatus ev
+  let retry ← (if h.newStatus.isCompleted then completedRetryDecision E k h.idx h.ts h.oldStatus h.newStatus ev
                else pure false : M Bool)
   if retry then recur k (.engine .retry_)
   else updateRest E recur k ev h
@@ -749,7 +781,7 @@ def renderOutput : M Unit := do
     if nerr > 0 then do
       logError "ExpressionEvaluationException"
       if c.st.status != .expired && c.st.status != .abandoned && c.st.status != .canceled then
-        requestStatus .failed
+        failOnError
       else pure ()
     else pure ()
   else pure ()
